@@ -11,9 +11,10 @@ open Hecs Hecs.Serde Hecs.CanonLemmas
 def Bounded (w : World) : Prop :=
   ∀ p ∈ w.liveRows, p.1.id < 4294967296 ∧ 0 < p.1.gen ∧ p.1.gen < 4294967296
 
-/-- zero-sized components (types 7, 8, 9) carry the unit value, rendered 0 -/
+/-- stored component values are values their types can hold: zero-sized components (types 7, 8, 9)
+carry the unit value, rendered 0, and the 4-byte types (1, 2) hold 32-bit values -/
 def ZstNormal (w : World) : Prop :=
-  ∀ p ∈ w.liveRows, ∀ c ∈ p.2, 7 ≤ c.1 ∧ c.1 ≤ 9 → c.2 = 0
+  ∀ p ∈ w.liveRows, ∀ c ∈ p.2, normVal c.1 c.2 = c.2
 
 theorem entity_bits_roundtrip (e : Entity) (hid : e.id < 4294967296) (hg : 0 < e.gen) (hg' : e.gen < 4294967296) :
     entityOfBits (bitsOf e) = some e := by
@@ -67,7 +68,7 @@ theorem deEntityMap_enc (H : List Nat) (ps acc : List Comp)
 
 theorem rowEntry_decodes (H : List Nat) (hH : H.Nodup) (p : Entity × List Comp)
     (hb : p.1.id < 4294967296 ∧ 0 < p.1.gen ∧ p.1.gen < 4294967296)
-    (hz : ∀ c ∈ p.2, 7 ≤ c.1 ∧ c.1 ≤ 9 → c.2 = 0) :
+    (hz : ∀ c ∈ p.2, normVal c.1 c.2 = c.2) :
     RowEntry H (rowEntry H p) (p.1, pairsH H p.2) := by
   refine ⟨bitsOf p.1, _, rfl, entity_bits_roundtrip p.1 hb.1 hb.2.1 hb.2.2, ?_⟩
   have := deEntityMap_enc H (pairsH H p.2) [] ?_ ?_ (by simpa using pairsH_nodup hH p.2)
@@ -79,11 +80,7 @@ theorem rowEntry_decodes (H : List Nat) (hH : H.Nodup) (p : Entity × List Comp)
   · intro c hc
     simp only [pairsH, List.mem_filterMap, Option.map_eq_some_iff] at hc
     obtain ⟨t, ht, v, hv, rfl⟩ := hc
-    have := hz _ (lookupComp_some hv)
-    unfold normVal
-    split
-    · rename_i h; exact (this h).symm
-    · rfl
+    exact hz _ (lookupComp_some hv)
 
 theorem all₂_map {α β γ : Type} (R : β → γ → Prop) (f : α → β) (g : α → γ) (l : List α)
     (h : ∀ a ∈ l, R (f a) (g a)) : All₂ R (l.map f) (l.map g) := by
